@@ -2,7 +2,7 @@
    framing_any b size pt cnt := len b = size /\ len b mod 4 = 0 /\ framed16 b (version 2, length field = words - 1)
                                 /\ the header carries packet type pt and count cnt. *)
 From RTCP Require Import Proofs.Tactics Model.Header Model.Reports Model.Sdes Model.ByeApp Model.Xr Model.Packet Spec.Enc Spec.Laws
-  Proofs.Dgram Proofs.EncXr Proofs.PacketLevel.
+  Model.Feedback Proofs.Dgram Proofs.EncXr Proofs.PacketLevel Proofs.Extras.
 Local Open Scope N_scope.
 
 (* EVERY value on which Marshal succeeds (unaligned extensions, texts, data included), no domain hypothesis *)
@@ -39,3 +39,21 @@ Print Assumptions C05_compound_size.
 Theorem C05_xr_odd_chunks_refuted : exists x, exists b, XR_marshal x = Ok b /\ len b mod 4 <> 0.
 Proof. exact xr_odd_chunks_unaligned_refuted. Qed.
 Print Assumptions C05_xr_odd_chunks_refuted.
+
+(* the feedback types, again for EVERY value on which Marshal succeeds; Header() is the header found in the bytes *)
+Theorem C05_PictureLossIndication : forall p b, PLI_marshal p = Ok b -> len b = PLI_size p /\ len b mod 4 = 0 /\ Header_unmarshal b = Ok (PLI_header p).
+Proof. exact PLI_framing_any_value. Qed.
+Print Assumptions C05_PictureLossIndication.
+Theorem C05_RapidResynchronizationRequest : forall p b, RRR_marshal p = Ok b -> len b = RRR_size p /\ len b mod 4 = 0 /\ Header_unmarshal b = Ok (RRR_header p).
+Proof. exact RRR_framing_any_value. Qed.
+Print Assumptions C05_RapidResynchronizationRequest.
+Theorem C05_TransportLayerNack : forall p b, NACK_marshal p = Ok b -> len b = NACK_size p /\ len b mod 4 = 0 /\ Header_unmarshal b = Ok (NACK_header p).
+Proof. exact NACK_framing_any_value. Qed.
+Print Assumptions C05_TransportLayerNack.
+Theorem C05_FullIntraRequest : forall p b, FIR_marshal p = Ok b -> len b = FIR_size p /\ len b mod 4 = 0 /\ Header_unmarshal b = Ok (FIR_header p).
+Proof. exact FIR_framing_any_value. Qed.
+Print Assumptions C05_FullIntraRequest.
+(* SliceLossIndication: well-framed, but its header carries packet type 205 (finding F5) *)
+Theorem C05_SliceLossIndication_partial : forall p b, SLI_marshal p = Ok b -> len b = SLI_size p /\ len b mod 4 = 0 /\ Header_unmarshal b = Ok (SLI_header p).
+Proof. exact SLI_framing_any_value. Qed.
+Print Assumptions C05_SliceLossIndication_partial.
